@@ -874,6 +874,17 @@ def makeRuntime : List GItem :=
    .func (printFn "string_print" "fmt.Print"), .func (printFn "string_println" "fmt.Println"),
    .func fnMissing]
 
+/-- `array_get__T(arr, index)`: `return arr[index]` -/
+def arrGetFn (t : Ty) (len : Nat) (elem : Ty) : GFunc :=
+  { name := helperFnName "array_get" t, params := [("arr", .array len (goTy elem)), ("index", i32)], ret := some (goTy elem),
+    body := [.ret (some (.index (goTy elem) (sV "arr" (.array len (goTy elem))) (sV "index" i32)))] }
+/-- `array_set__T(arr, index, value)`: `arr[index] = value; return arr` (on the callee's copy) -/
+def arrSetFn (t : Ty) (len : Nat) (elem : Ty) : GFunc :=
+  { name := helperFnName "array_set" t, params := [("arr", .array len (goTy elem)), ("index", i32), ("value", goTy elem)],
+    ret := some (.array len (goTy elem)),
+    body := [.indexAssign (sV "arr" (.array len (goTy elem))) (sV "index" i32) (sV "value" (goTy elem)),
+             .ret (some (sV "arr" (.array len (goTy elem))))] }
+
 /-- `make_array_runtime`: two helpers per collected array type (not for the wildcard length) -/
 def arrayRuntime : List Ty → List GItem
   | [] => []
@@ -881,15 +892,7 @@ def arrayRuntime : List Ty → List GItem
     (match t with
      | .array len elem =>
        if len == Goml.Gen.arrayWildcardLen then []
-       else
-         let arrTy : GTy := .array len (goTy elem)
-         let elTy := goTy elem
-         [.func { name := helperFnName "array_get" t, params := [("arr", arrTy), ("index", i32)], ret := some elTy,
-                  body := [.ret (some (.index elTy (sV "arr" arrTy) (sV "index" i32)))] },
-          .func { name := helperFnName "array_set" t, params := [("arr", arrTy), ("index", i32), ("value", elTy)],
-                  ret := some arrTy,
-                  body := [.indexAssign (sV "arr" arrTy) (sV "index" i32) (sV "value" elTy),
-                           .ret (some (sV "arr" arrTy))] }]
+       else [.func (arrGetFn t len elem), .func (arrSetFn t len elem)]
      | _ => []) ++ arrayRuntime rest
 
 def okArrayRuntime (ts : List Ty) : Bool :=
